@@ -677,6 +677,7 @@ package raft
 //@   ensures  durable_before_restore: sent(r.fsmMutateCh) != old(sent(r.fsmMutateCh)) ==> snapDurable[max(meta.Index, max(old(r.lastLogIndex), old(r.lastSnapshotIndex))) + 1]
 //@   ensures  error_leaves_cached_tail: result != nil ==> r.lastLogIndex == old(r.lastLogIndex) && r.lastApplied == old(r.lastApplied) && r.lastSnapshotIndex == old(r.lastSnapshotIndex)
 //@   ensures  term_untouched: r.currentTerm == old(r.currentTerm) && r.state == old(r.state)
+//@   at call (*deferError).Error#1 assert restore_request_has_shutdown_escape: fsm.ShutdownCh == r.shutdownCh && sent(r.fsmMutateCh) == old(sent(r.fsmMutateCh)) + 1
 //@   loop 1 invariant untouched: r.lastLogIndex == old(r.lastLogIndex) && r.lastLogTerm == old(r.lastLogTerm) && r.lastApplied == old(r.lastApplied) &&
 //@              r.lastSnapshotIndex == old(r.lastSnapshotIndex) && r.lastSnapshotTerm == old(r.lastSnapshotTerm) && r.currentTerm == old(r.currentTerm) && r.state == old(r.state) &&
 //@              snapDurable == old(snapDurable) && sent(r.fsmMutateCh) == old(sent(r.fsmMutateCh)) && r.leaderState.inflight != nil &&
@@ -716,6 +717,7 @@ package raft
 //@   ensures  handshake: isResp(rpc).Success ==>
 //@              (req.LastLogIndex == lastEntryIndex(r) && req.LastLogTerm == lastEntryTerm(r)) ||
 //@              (r.logs.has[req.LastLogIndex] && r.logs.ent[req.LastLogIndex].Term == req.LastLogTerm)
+//@   at call (*deferError).Error#1 assert restore_request_has_shutdown_escape: future.ShutdownCh == r.shutdownCh && sent(r.fsmMutateCh) == old(sent(r.fsmMutateCh)) + 1
 
 // ---------------------------------------------------------------------------
 // Leader append (C04 leader side, C05 self-match, C03 store-before-ack, C08 index assignment)
@@ -818,6 +820,7 @@ package raft
 //@   ensures  removed_only_at_or_below_snapshot: forall i uint64 :: old(r.logs.has[i]) && !r.logs.has[i] ==> i <= r.lastSnapshotIndex
 //@   ensures  log_tail_untouched: r.lastLogIndex == old(r.lastLogIndex) && r.lastLogTerm == old(r.lastLogTerm) && r.currentTerm == old(r.currentTerm)
 //@   at call (*deferError).Error#1 assert fsm_snapshot_awaited_first: sent(r.fsmSnapshotCh) == old(sent(r.fsmSnapshotCh)) + 1 && sent(r.configurationsCh) == old(sent(r.configurationsCh))
+//@   at call (*deferError).Error#2 assert config_request_has_shutdown_escape: configReq.ShutdownCh == r.shutdownCh && sent(r.configurationsCh) == old(sent(r.configurationsCh)) + 1 && lastsent(r.configurationsCh) == configReq
 //@   at call SnapshotStore.Create#1 assert stamped_with_snapshot_request: arg1 == snapReq.index && arg2 == snapReq.term && arg4 == committedIndex && snapReq.index >= committedIndex
 
 // ---------------------------------------------------------------------------
@@ -974,3 +977,37 @@ package raft
 //@              r.commitIndex >= r.leaderState.commitment.startIndex && r.leaderState.leadershipTransferInProgress != 1
 //@   at call (*Raft).dispatchLogs#1 assert not_while_transferring_or_stepping_down: r.leaderState.leadershipTransferInProgress != 1 && !stepDown
 //@   at call time.After#2 assert lease_check_interval_floor: arg0 >= minCheckInterval
+
+// ---------------------------------------------------------------------------
+// C17 (sliver): a future that an API call leaves on a queue carries the shutdown escape, so that a
+// caller blocked in Error() is released by Shutdown even if no run loop ever serves the queue again.
+
+//@ func (r *Raft) VerifyLeader
+//@   requires nonnil: r != nil && r.verifyCh != nil && r.shutdownCh != nil
+//@   ensures  queued_future_has_shutdown_escape: typeis(result, *verifyFuture) ==> cast(result, *verifyFuture).ShutdownCh == r.shutdownCh
+//@   ensures  queued_or_refused: typeis(result, *verifyFuture) || (typeis(result, errorFuture) && cast(result, errorFuture).err == ErrRaftShutdown)
+//@   ensures  queued_means_sent: typeis(result, *verifyFuture) ==> sent(r.verifyCh) == old(sent(r.verifyCh)) + 1 && lastsent(r.verifyCh) == cast(result, *verifyFuture) && isfresh(cast(result, *verifyFuture)) && cast(result, *verifyFuture).errCh != nil
+//@   ensures  refused_means_not_sent: !typeis(result, *verifyFuture) ==> sent(r.verifyCh) == old(sent(r.verifyCh))
+
+//@ func (r *Raft) ApplyLog
+//@   requires nonnil: r != nil && r.applyCh != nil && r.shutdownCh != nil
+//@   ensures  queued_future_has_shutdown_escape: typeis(result, *logFuture) ==> cast(result, *logFuture).ShutdownCh == r.shutdownCh
+//@   ensures  queued_or_refused: typeis(result, *logFuture) || (typeis(result, errorFuture) && (cast(result, errorFuture).err == ErrRaftShutdown || cast(result, errorFuture).err == ErrEnqueueTimeout))
+//@   ensures  timeout_only_if_requested: typeis(result, errorFuture) && cast(result, errorFuture).err == ErrEnqueueTimeout ==> timeout > 0
+//@   ensures  queued_means_sent: typeis(result, *logFuture) ==> sent(r.applyCh) == old(sent(r.applyCh)) + 1 && lastsent(r.applyCh) == cast(result, *logFuture) && isfresh(cast(result, *logFuture)) && cast(result, *logFuture).errCh != nil
+//@   ensures  refused_means_not_sent: !typeis(result, *logFuture) ==> sent(r.applyCh) == old(sent(r.applyCh))
+//@   ensures  command_entry: typeis(result, *logFuture) ==> cast(result, *logFuture).log.Type == LogCommand && cast(result, *logFuture).log.Index == 0 && cast(result, *logFuture).log.Term == 0
+
+//@ func (r *Raft) Barrier
+//@   requires nonnil: r != nil && r.applyCh != nil && r.shutdownCh != nil
+//@   ensures  queued_future_has_shutdown_escape: typeis(result, *logFuture) ==> cast(result, *logFuture).ShutdownCh == r.shutdownCh
+//@   ensures  queued_or_refused: typeis(result, *logFuture) || (typeis(result, errorFuture) && (cast(result, errorFuture).err == ErrRaftShutdown || cast(result, errorFuture).err == ErrEnqueueTimeout))
+//@   ensures  queued_means_sent: typeis(result, *logFuture) ==> sent(r.applyCh) == old(sent(r.applyCh)) + 1 && lastsent(r.applyCh) == cast(result, *logFuture) && isfresh(cast(result, *logFuture)) && cast(result, *logFuture).errCh != nil
+//@   ensures  refused_means_not_sent: !typeis(result, *logFuture) ==> sent(r.applyCh) == old(sent(r.applyCh))
+//@   ensures  barrier_entry: typeis(result, *logFuture) ==> cast(result, *logFuture).log.Type == LogBarrier
+
+//@ func (r *Raft) initiateLeadershipTransfer
+//@   requires nonnil: r != nil && r.leadershipTransferCh != nil && r.shutdownCh != nil && r.logger != nil
+//@   ensures  queued_future_has_shutdown_escape: typeis(result, *leadershipTransferFuture) && sent(r.leadershipTransferCh) != old(sent(r.leadershipTransferCh)) ==> cast(result, *leadershipTransferFuture).ShutdownCh == r.shutdownCh
+//@   ensures  self_transfer_refused_without_queueing: id != nil && *id == r.localID ==> sent(r.leadershipTransferCh) == old(sent(r.leadershipTransferCh)) && typeis(result, *leadershipTransferFuture) && cast(result, *leadershipTransferFuture).responded
+//@   ensures  queued_means_sent: sent(r.leadershipTransferCh) != old(sent(r.leadershipTransferCh)) ==> typeis(result, *leadershipTransferFuture) && lastsent(r.leadershipTransferCh) == cast(result, *leadershipTransferFuture) && cast(result, *leadershipTransferFuture).errCh != nil
